@@ -34,10 +34,24 @@ def main(tier, replay):
             c["id"] = i + 1
         states += gen.distinct
         trans += gen.generated
-        cases_p = os.path.join(wd, "cases.ndjson")
-        vlib.write_ndjson(cases_p, cases)
         binp = os.path.join(wd, "registry")
         vlib.go_build("./cmd/registry", binp)
+        # "every kind SERVED with a status subresource": read from the storage map the control plane really installs (harness wiring.go), not
+        # assumed.  A RateLimitCondition that is served with one (on this tree it is not) owes the separation as well: the cases of the family
+        # "rls" are then also put to its real strategies (kind "rlx")
+        sv = vlib.run([binp, "served"], timeout=120)
+        if sv.returncode != 0:
+            raise Infra("registry served failed: " + sv.stderr[-2000:])
+        served = json.loads(sv.stdout.strip().splitlines()[-1])
+        if not served.get("uc"):
+            v.violation("served-uc", {"served": served, "what": "UpstreamCluster is not served with a status subresource"})
+        if served.get("rl") and not replay:
+            extra = [dict(c, kind="rlx") for c in cases if c["kind"] == "rls"]
+            cases = [c for c in cases if c["kind"] != "rlc"] + extra
+            for i, c in enumerate(cases):
+                c["id"] = i + 1
+        cases_p = os.path.join(wd, "cases.ndjson")
+        vlib.write_ndjson(cases_p, cases)
         out_p = os.path.join(wd, "out.ndjson")
         r = vlib.run([binp, "cases", cases_p, out_p], timeout=600)
         if r.returncode != 0:
